@@ -3,7 +3,6 @@ using SP_s1_b = SplineTrajectory::SepticSplineND<1>;
 using TM_s1_b = SplineTrajectory::QuadInvTimeMap;
 using SM_s1_b = SplineTrajectory::IdentitySpatialMap<1>;
 OPT_REGISTER_ONE(C12, P_C12, s1_b, SP_s1_b, TM_s1_b, SM_s1_b, false, 1)
-#ifndef STSIM_TSAN
 OPT_REGISTER_ONE(C07, P_C07, s1_b, SP_s1_b, TM_s1_b, SM_s1_b, false, 1)
 OPT_REGISTER_ONE(C08, P_C08, s1_b, SP_s1_b, TM_s1_b, SM_s1_b, false, 1)
 OPT_REGISTER_ONE(C09, P_C09, s1_b, SP_s1_b, TM_s1_b, SM_s1_b, false, 1)
@@ -11,4 +10,3 @@ OPT_REGISTER_ONE(C10, P_C10, s1_b, SP_s1_b, TM_s1_b, SM_s1_b, false, 1)
 OPT_REGISTER_ONE(C15, P_C15, s1_b, SP_s1_b, TM_s1_b, SM_s1_b, false, 1)
 OPT_REGISTER_ONE(C16, P_C16, s1_b, SP_s1_b, TM_s1_b, SM_s1_b, false, 1)
 OPT_REGISTER_ONE(C19, P_C19, s1_b, SP_s1_b, TM_s1_b, SM_s1_b, false, 1)
-#endif
